@@ -139,6 +139,12 @@ BFollows(cur, P, Ng, want, k, len) ==
                   [] want[k] = "f" -> v \in Ng /\ BFollows(E, P, Ng, want, k + 1, len)
                   [] OTHER -> \/ v \in P /\ BFollows(T, P, Ng, want, k + 1, len)
                               \/ v \in Ng /\ BFollows(E, P, Ng, want, k + 1, len)
+(* ZBDD: hi = lo # {} is a node of the canonical diagram (only hi = {} is reduced away), so the
+   literal-set variant meets the variable and has a choice: it follows the literal set, and
+   leaves the variable don't care exactly when the set does not mention it *)
+ZDcOk(v, P, Ng, w, len) ==
+  IF len THEN CASE w = "t" -> v \in P [] w = "f" -> v \in Ng [] OTHER -> v \notin (P \cup Ng)
+  ELSE v \notin (P \cup Ng)
 RECURSIVE ZFollows(_, _, _, _, _, _)
 ZFollows(cur, P, Ng, want, k, len) ==
   IF k > n THEN cur = {0}
@@ -146,7 +152,7 @@ ZFollows(cur, P, Ng, want, k, len) ==
            hi == Subset1(cur, v)
            lo == Subset0(cur, v)
        IN  IF hi = {} THEN v \in Ng /\ ZFollows(lo, P, Ng, want, k + 1, len)
-           ELSE IF hi = lo THEN DcOk(v, P, Ng, want[k], len) /\ ZFollows(hi, P, Ng, want, k + 1, len)
+           ELSE IF hi = lo THEN ZDcOk(v, P, Ng, want[k], len) /\ ZFollows(hi, P, Ng, want, k + 1, len)
            ELSE IF lo = {} THEN v \in P /\ ZFollows(hi, P, Ng, want, k + 1, len)
            ELSE CASE want[k] = "t" -> v \in P /\ ZFollows(hi, P, Ng, want, k + 1, len)
                   [] want[k] = "f" -> v \in Ng /\ ZFollows(lo, P, Ng, want, k + 1, len)
